@@ -68,7 +68,7 @@ P = {
   "random addresses through the real irc_ntop, irc_pton and libc inet_pton.", "Lean 4 proofs on printer/parser models + exhaustive pattern correspondence incl. libc"),
  "C13": ("addr", True,
   "Lean theorem mask_spec (irc_check_mask true iff the top min(n,128) bits agree, all a, m, n), pton_safe (no out-of-bounds access for any input), "
-  "CIDR/wildcard meaning lemmas; all short strings over the address alphabet and grammar-derived/mutated texts through the real parser under ASan, "
+  "CIDR/wildcard meaning lemmas, every printed address read back as its own /128 (C13_plain_is_128); all short strings over the address alphabet and grammar-derived/mutated texts through the real parser under ASan, "
   "agreement with inet_pton where both accept.", "Lean 4 proofs (mask_spec, pton_safe, CIDR lemmas) + exhaustive short-string correspondence incl. libc"),
  "C14": ("conf", True,
   "Lean 4 theorems for every byte sequence and every prior state: the model of conf_read's parser terminates within a fuel bound derived from the "
@@ -110,8 +110,9 @@ P = {
   "spec is also evaluated directly on the C code's outputs.", "Lean 4 refinement proof + model/implementation correspondence check"),
  "C20": ("module", True,
   "Lean 4 theorems for every dependency graph of any size: on acyclic loadable graphs each module is constructed once, after its dependencies finished, "
-  "post-initialised once after them, destroyed before them; a reachable cycle or unloadable module aborts with no partial post-init. The real module.c "
-  "is driven with stub shared objects over all small digraphs x listing orders and random larger ones.", "Lean 4 proofs over all graphs + correspondence with stub .so modules"),
+  "post-initialised once after them, destroyed before them; a reachable cycle or unloadable module aborts with no partial post-init; with modules that lack the optional post-init "
+  "hook the same holds with the post-init order read transitively through them (C20_judge_hookless). The real module.c "
+  "is driven with stub shared objects (with and without the hook) over all small digraphs x listing orders and random larger ones.", "Lean 4 proofs over all graphs + correspondence with stub .so modules"),
 }
 
 REASON_PENDING = ("engine under construction in this round; the Lean-proof technique applies (see DESIGN.md section 6) and the check is registered as "
@@ -163,4 +164,5 @@ def main(claim):
 
 
 if __name__ == "__main__":
-    main(set(sys.argv[1:]))
+    # no argument = every property is claimed (the state since all six engines are registered)
+    main(set(sys.argv[1:]) or set(P))
